@@ -335,7 +335,7 @@ def execute(case):
                     break
             # concurrent readers of the eagerly read file, one deterministic interleaving
             if case.get('threads') and not res.violations:
-                res.violations += concurrent_reads(case['threads'], eager, w, res)
+                res.violations += _lazy.concurrent_reads(case['threads'], eager, w, res, 'C13.concurrent')
             # results already handed out must not change when later reads happen
             for (label, before, after) in keeper.mutated()[:3]:
                 res.violations.append(V('C13.result-aliased', 'the array returned by %s changed after later reads: was %s, now %s' % (
@@ -363,35 +363,6 @@ def execute(case):
             lazy.close()
     res.ev('violations', [v.as_dict() for v in res.violations])
     return res
-
-
-def concurrent_reads(th, eager, w, res):
-    from ..threads import Interleaver, InterleaveError
-    out = []
-    alone = []
-    for op in th['ops']:
-        g, exc, eo = ops.try_op(lambda: ops.norm(ops.do_op(eager, w, op)))
-        alone.append((g, exc))
-    il = Interleaver(th['seed'], switch_p=th['switch_p'], trace_prefix=os.path.dirname(lib.nptdms.__file__))
-    try:
-        got = il.run([(lambda op=op: ops.norm(ops.do_op(eager, w, op))) for op in th['ops']])
-    except InterleaveError as exc:
-        return [V('C13.concurrent-hang', 'threads reading the eagerly read file did not finish: %s' % exc)]
-    res.probe('concurrent-readers')
-    if il.switches:
-        res.probe('concurrent-readers:switched')
-    res.steps += il.points
-    res.ev('threads', il.trace[:50], il.points)
-    for op, (g0, e0), r in zip(th['ops'], alone, got):
-        label = {k: v for k, v in op.items() if k != 'ch'}
-        if r[0] == 'exc':
-            if e0 is None:
-                out.append(V('C13.concurrent', '%s on %s raised %s: %s when run concurrently (%d switches), alone it returns %s' % (
-                    label, op['ch'], type(r[1]).__name__, r[1], il.switches, _lazy._short(g0)), exc=type(r[1]).__name__))
-        elif e0 is None and r[1] != g0:
-            out.append(V('C13.concurrent', '%s on %s returns %s when other threads read the same channel at the same time '
-                         '(%d switches), alone it returns %s' % (label, op['ch'], _lazy._short(r[1]), il.switches, _lazy._short(g0))))
-    return out
 
 
 def shrink_candidates(case):
